@@ -17,7 +17,7 @@ MANIFEST = dict(
               "replay into the implementation through gated doubles",
     design="5/C02")
 INVS = ["TypeOK", "Restored", "BodyExcIdentity", "EnterOnce", "ExitOnce", "ExitArg", "EnterFailureNoBody",
-        "SurfaceCleanup", "CancelNotLost"]
+        "SurfaceCleanup", "CancelNotLost", "CancelAbortsMembers", "NoWaitAfterFailure"]
 ALL = ["ok", "fail", "susp"]
 ACTIONS = ["Enter", "Cancel", "Leave", "ReleaseEnter", "ReleaseExit", "Spawn", "ChildEnd", "ChildFail"]
 
@@ -35,6 +35,9 @@ def run(rep, work, tier, seed):
         small = dict(ND=2, NC=1, Behaviours=ALL)
         leg_mutant(rep, work, SPEC, "mutant_no_restore_on_failure",
                    cfg_text(dict(small, Bug="no_restore_on_failure"), invariants=INVS), ["Restored"])
+        leg_mutant(rep, work, SPEC, "mutant_exit_failure_awaits_members",
+                   cfg_text(dict(small, Bug="exit_failure_awaits_members"), invariants=INVS),
+                   ["CancelAbortsMembers", "NoWaitAfterFailure"])
         leg_mutant(rep, work, SPEC, "mutant_swallow_exit_cancel",
                    cfg_text(dict(small, Bug="swallow_exit_cancel"), invariants=INVS), ["CancelNotLost"])
     for name, conf in confs:
